@@ -298,7 +298,7 @@ func resolveRoles(p *Program) {
 					if pt, isP := ft.(*types.Pointer); isP {
 						ft = pt.Elem()
 					}
-					if ts := types.TypeString(ft, nil); ts == "sync.Mutex" || ts == "sync.Locker" {
+					if ts := types.TypeString(ft, nil); ts == "sync.Mutex" || ts == "sync.RWMutex" || ts == "sync.Locker" {
 						mus = append(mus, f)
 						partOfMu[f.Name()] = typeCanonName(n.Obj())
 						continue
